@@ -12,6 +12,9 @@ CHECKS = {
  "C10": dict(cat="model_checking", tech="TLA+ models MetaReader.tla / DataReader.tla (cache state machines vs. pure reference function) exhaustively checked by TLC over all short histories; every TLC history replayed on the real readers over a concrete image shaped like the abstract one, results compared with the model's prediction and with freshly created readers; seeded random histories over all reader APIs on valid and damaged images",
    text="TLC enumerates all histories of up to 3 (quick) / 4 (thorough) metadata queries (seek+read over a 4-block table with a full, an undecompressable, a header-corrupt and a short block) and all data-block/fragment cache histories, checking that every answer equals the pure reference function and that the cache tag is coherent; deviations (tag set after load = the pinned tree, location-only cache key = the pinned tree, offset unchecked, next pointer stale, cache kept on error) must each give a counterexample. An edge cover of the state graph is executed on the real libsquashfs readers over concrete images (gensquashfs output with a corrupted block / header; an adversarial twin image from the independent encoder); status and payload (crc) of each call are compared with the model's prediction and with the same call on fresh readers. Random 120-call histories over meta, dir, path, data (positional, block, fragment, stream), xattr and id APIs on valid and bit-flipped images are compared differentially.",
    note="Trusts the independent decoder/encoder for the concrete images and the fresh-reader oracle; histories mixing different images on one reader are not modelled; dir reader created with flags 0.", ref="4 C10"),
+ "C19": dict(cat="model_checking", tech="TLA+ model ObjLife.tla (refcounts, destroy/copy hooks, owned buffers, owned child object, shared resources) exhaustively checked by TLC; every distinct history of its state graph replayed on real libsquashfs objects of all 19 copyable kinds under ASan+LSan with a fresh-object oracle",
+   text="TLC explores all programs of up to 5 (quick) / 6 (thorough) create/mutate/query/copy/grab/drop steps over up to 3 objects for each object shape (buffers owned, child object, shared file+compressor) and checks: no call through a NULL hook, no use after free, no double free, the copy's visible state evolves independently, nothing leaks once the client holds no reference; six deviations (copy without object init = the pinned id/fragment table, child without init, shallow buffer, shared not grabbed, refcount copied, child not copied) must each give a counterexample. The edge cover of the state graph yields ~12k distinct histories containing a copy; a sample per kind (all in thorough) plus all deviation witnesses are executed on the real objects (5 compressors x 2 directions, id/fragment table, meta/dir/data/xattr readers, read-only file, xattr writer) under ASan+LSan, and every query is compared with a fresh object that received exactly the mutations the model says are visible.",
+   note="Trusts ASan/LSan for memory errors and leaks, and the fresh-object oracle. Allocation-failure paths inside copy hooks are not exercised here (see C13).", ref="4 C19"),
 }
 NOT_YET = {}
 def main():
